@@ -44,8 +44,19 @@ def target(xs):
     for x in xs:
         acc += x
     return acc
+def target_late(xs):
+    # the tracepoint line is reached before `late` is first bound: the same expression fails on the first hit and is valid afterwards
+    lst = [1, 2]
+    d = {}
+    acc = 0
+    for x in xs:
+        acc += x
+        late = x
+    return acc
 '''
 LINE = PROGRAM.split('\n').index('        acc += x') + 1
+LINE_LATE = PROGRAM.split('\n').index('        acc += x', LINE) + 1
+
 
 CONDITIONS = [
     # (text, class)
@@ -57,6 +68,7 @@ CONDITIONS = [
     ("boom('1')", 'failing'), ('1/(x+1) > 0', 'failing-some'),
     ('', 'blank'), ('   ', 'blank'),
     ('TriggerContext is not None', 'agent-name'), ('uuid == "host-uuid"', 'shadowed'),
+    ('late > 0', 'late-bound'), ('late == x', 'late-bound'), ('late < 0 or x > 0', 'late-bound'),
 ]
 
 EXPRS = [
@@ -123,6 +135,8 @@ def case_cond(ctx, desc):
     ns, path = prog()
     cond, cls = CONDITIONS[desc['cond']]
     fc = int(desc['fc'])
+    LINE = LINE_LATE if cls == 'late-bound' else globals()['LINE']
+    fname = 'target_late' if cls == 'late-bound' else 'target'
     agent = rig.Agent()
     args = {'condition': cond, 'fire_count': desc['fc'], 'fire_period': '0', 'log_msg': 'hit {x}', 'span': 'line'}
     # one tracepoint carrying snapshot(+log), metric and span actions; a second, log-only one
@@ -143,7 +157,7 @@ def case_cond(ctx, desc):
 
     fw = Forwarder({path}, agent.handler, probe, after)
     with rig.VirtualClock():
-        run = fw.call(ns['target'], desc['xs'])
+        run = fw.call(ns[fname], desc['xs'])
     ctx.case()
     if run.escaped:
         ctx.violation('C10/agent-raised-into-host/' + type(run.escaped[0][1]).__name__,
